@@ -699,6 +699,16 @@ fn classic_optimize_k(_case: &Value, inputs: &Value) -> Value {
     json!({"before": before, "optimized": tree_to_json(&a, ot), "after": after})
 }
 
+// assemble arbitrary text
+fn assemble_any_k(_case: &Value, inputs: &Value) -> Value {
+    let mut a = Allocator::new();
+    let t = String::from_utf8_lossy(&bytes_of(&inputs["b"])).to_string();
+    match chialisp::classic::clvm_tools::binutils::assemble(&mut a, &t) {
+        Ok(n) => json!({"ok": tree_to_json(&a, n)}),
+        Err(_) => json!({"err": true}),
+    }
+}
+
 // assemble(text) -> tree (used to evaluate constant patterns natively)
 fn assemble_k(_case: &Value, inputs: &Value) -> Value {
     let mut a = Allocator::new();
@@ -713,6 +723,7 @@ pub fn dispatch(kernel: &str, case: &Value, inputs: &Value) -> Value {
         "assemble" => assemble_k(case, inputs),
         "int_from_bytes" => int_from_bytes_k(case, inputs),
         "decode" => decode_k(case, inputs),
+        "assemble_any" => assemble_any_k(case, inputs),
         "classic_optimize" => classic_optimize_k(case, inputs),
         "brief_chain" => brief_chain_k(case, inputs),
         "output_optimize" => output_optimize_k(case, inputs),
